@@ -382,11 +382,13 @@ impl GcManaged for ObjClosure {
     fn mark(&self) {
         self.function.mark();
         self.upvalues.mark();
+        self.module.mark();
     }
 
     fn blacken(&self) {
         self.function.blacken();
         self.upvalues.blacken();
+        self.module.blacken();
     }
 }
 
